@@ -158,14 +158,16 @@ class Engine(EngineBase, AccessMixin, StmtMixin, CallMixin):
                 self._term_walk(f, sub, p, fc, mexpr, m0)
 
     # ------------------------------------------------------------------ function against contract
-    def verify_contract(self, c, cls=None):
+    def verify_contract(self, c, cls=None, combo=None):
         repo = self.repo
         found = repo.function(c.target)
         if found is None:
             raise Unsupported('contract target %s not found in the repository' % c.target)
         module, ci, fnode, outer = found
-        self.unit = c.key + ('@' + cls.split('.')[-2] if cls else '')
+        self.unit = c.key + ('@' + cls.split('.')[-2] if cls else '') + (('[%s]' % ','.join('%s=%s' % kv for kv in combo)) if combo else '')
+        combo_d = dict(combo or ())
         self.unit_target = c.target
+        self.contract_name = c.name
         self.props = c.props
         self.fn_hash = repo.source_hash(fnode)
         p = Path()
@@ -182,7 +184,11 @@ class Engine(EngineBase, AccessMixin, StmtMixin, CallMixin):
         for (n, t) in c.params:
             if n == 'self' and cls is not None and isinstance(t, tuple):
                 t = ('Ref', cls)
-            env[n] = self.fresh_of_type(p, n, t)
+            if n in combo_d:
+                cv = combo_d[n]
+                env[n] = VBool(bool(cv)) if t == 'bool' else (VVer(VER_V31 if cv == 'v31' else VER_V311) if t == 'Ver' else VInt(int(cv)))
+            else:
+                env[n] = self.fresh_of_type(p, n, t)
         self.inputs = dict(env)
         p.env = {n: env[n] for n in env}
         sfc = self.contract_fc(c, None)
@@ -243,8 +249,6 @@ class Engine(EngineBase, AccessMixin, StmtMixin, CallMixin):
             self.check_frame(c, q2, old, sfc)
 
     def check_raise_exit(self, c, q, exc, env, old, conds):
-        if feasible(q, None, 1000):
-            self.covers += 1
         allowed = [(ecls, wt) for (ecls, wt) in conds if self.exc_subclass(exc.cls, ecls)]
         name = '%s/noraise:%s:%s' % (c.key, exc.cls, exc.origin[:60])
         if not allowed:
@@ -329,43 +333,60 @@ CVC5 = '/usr/bin/cvc5'
 
 
 def solve(assumptions, goal, timeout_ms, want_model=True):
-    """returns (result, backend, seconds, model|None, detail); result in proved / failed / unknown"""
+    """returns (result, backend, seconds, model|None, detail); result in proved / failed / unknown.
+    z3's sequence solver is unstable on identical input, so an `unknown` is retried with other seeds before
+    cvc5 gets the exported problem.  Only `unsat` (proved) and a `sat` whose model satisfies every assertion
+    (failed) are believed."""
     t0 = time.time()
-    s = z3.Solver()
-    s.set('timeout', timeout_ms)
+    seen = set()
+    asm = []
     for a in assumptions:
-        s.add(a)
-    s.add(z3.Not(goal))
-    r = s.check()
-    dt = time.time() - t0
-    if r == z3.unsat:
-        return 'proved', 'z3-%s' % z3.get_version_string(), dt, None, ''
+        k = a.get_id()
+        if k not in seen:
+            seen.add(k)
+            asm.append(a)
+    ver = 'z3-%s' % z3.get_version_string()
     reason = None
-    if r == z3.sat:
-        m = s.model()
-        bad = None
-        for a in list(assumptions) + [z3.Not(goal)]:
-            try:
-                v = m.eval(a, model_completion=True)
-            except z3.Z3Exception:
-                continue
-            if z3.is_false(v):
-                bad = a
-                break
-        if bad is None:
-            return 'failed', 'z3-%s' % z3.get_version_string(), dt, m, ''
-        # z3's sequence solver occasionally answers sat with a model that violates an assertion
-        # (uninterpreted functions over Seq): such an answer is not believed
-        reason = 'sat with a model violating an assertion'
-    # unknown: try cvc5 on the exported problem
-    reason = reason or s.reason_unknown()
+    s = None
+    plan = [(0, timeout_ms // 4), (7, timeout_ms // 4), (23, timeout_ms // 2)]
+    for (seed, tmo) in plan:
+        s = z3.Solver()
+        s.set('timeout', max(tmo, 200))
+        s.set('random_seed', seed)
+        if seed:
+            s.set('smt.random_seed', seed)
+        for a in asm:
+            s.add(a)
+        s.add(z3.Not(goal))
+        r = s.check()
+        if r == z3.unsat:
+            return 'proved', ver, time.time() - t0, None, ('' if seed == 0 else 'z3 retry with seed %d' % seed)
+        if r == z3.sat:
+            m = s.model()
+            bad = None
+            for a in asm + [z3.Not(goal)]:
+                try:
+                    v = m.eval(a, model_completion=True)
+                except z3.Z3Exception:
+                    continue
+                if z3.is_false(v):
+                    bad = a
+                    break
+            if bad is None:
+                return 'failed', ver, time.time() - t0, m, ''
+            # z3's sequence solver occasionally answers sat with a model that violates an assertion
+            # (uninterpreted functions over Seq): such an answer is not believed
+            reason = 'sat with a model violating an assertion'
+            break
+        reason = s.reason_unknown()
+    dt = time.time() - t0
     t1 = time.time()
     res = run_cvc5(s, timeout_ms)
     dt2 = time.time() - t1
     if res == 'unsat':
         return 'proved', 'cvc5-1.0.3', dt + dt2, None, 'z3 unknown (%s)' % reason
     if res == 'sat':
-        return 'failed', 'cvc5-1.0.3', dt + dt2, None, 'z3 unknown (%s); cvc5 sat (no model extracted)' % reason
+        return 'unknown', 'z3+cvc5', dt + dt2, None, 'z3 unknown (%s); cvc5 sat (no model extracted)' % reason
     return 'unknown', 'z3+cvc5', dt + dt2, None, 'z3: %s; cvc5: %s' % (reason, res)
 
 
